@@ -457,6 +457,72 @@ theorem gcdLoop_eq_spec (fuel m n : Nat) (h : n < fuel) :
 
 end Impl
 
+/-! ## canonical form, whatever representation of a value an operator is given -/
+
+section Canonical
+open Impl
+
+/-- a representation is well formed when a fixnum object holds an int64 (a Go `Fixnum` always does);
+    a bignum object may hold ANY integer and a ratio object ANY rational (also with denominator 1):
+    Lisp code can build such non-canonical operands with `coerce` -/
+def Rep.WellFormed : Rep → Prop
+  | .fix i => inRange i
+  | _ => True
+
+/-- canonical: well formed, and the Go type is the one the value demands -/
+def Rep.Canonical (r : Rep) : Prop := r.WellFormed ∧ r.tag = typeOf r.value
+
+theorem canonInt_canonical (i : Int) : (canonInt i).Canonical ∧ (canonInt i).value = (i : Rat) := by
+  refine ⟨⟨?_, by rw [canonInt_value]; exact canonInt_tag i⟩, canonInt_value i⟩
+  unfold canonInt
+  by_cases h : isFix i = true
+  · rw [if_pos h]; exact (inRange_iff_isFix i).mpr h
+  · rw [if_neg h]; trivial
+
+theorem canonRat_canonical (r : Rat) : (canonRat r).Canonical ∧ (canonRat r).value = r := by
+  refine ⟨⟨?_, by rw [canonRat_value]; exact canonRat_tag r⟩, canonRat_value r⟩
+  unfold canonRat
+  by_cases h : r.den = 1
+  · rw [if_pos h]; exact (canonInt_canonical r.num).1.1
+  · rw [if_neg h]; trivial
+
+/-- `canonicalNumber` keeps the value and returns the canonical representation, whatever
+    representation of the value it is given -/
+theorem canonNumber_spec (r : Rep) (h : r.WellFormed) :
+    (canonNumber r).value = r.value ∧ (canonNumber r).Canonical := by
+  cases r with
+  | fix i =>
+    refine ⟨rfl, h, ?_⟩
+    show "fixnum" = typeOf ((i : Int) : Rat)
+    unfold typeOf
+    have : isFix i = true := (inRange_iff_isFix i).mp h
+    simp [this]
+  | big i => exact ⟨(canonInt_canonical i).2, (canonInt_canonical i).1⟩
+  | ratio q => exact ⟨(canonRat_canonical q).2, (canonRat_canonical q).1⟩
+
+/-- the canonical representation is a function of the value alone: two representations of the same
+    value (5 as a fixnum, in a bignum object, as the ratio 5/1) are brought to the same object -/
+theorem canonNumber_unique (r s : Rep) (hr : r.WellFormed) (hs : s.WellFormed) (h : r.value = s.value) :
+    canonNumber r = canonNumber s := by
+  have key : ∀ t : Rep, t.WellFormed → canonNumber t = canonRat t.value := by
+    intro t ht
+    cases t with
+    | fix i =>
+      show Rep.fix i = canonRat ((i : Int) : Rat)
+      unfold canonRat canonInt
+      have : isFix i = true := (inRange_iff_isFix i).mp ht
+      simp [this]
+    | big i =>
+      show canonInt i = canonRat ((i : Int) : Rat)
+      unfold canonRat; simp
+    | ratio q => rfl
+  rw [key r hr, key s hs, h]
+
+example : canonNumber (.big 5) = .fix 5 ∧ canonNumber (.ratio 5) = .fix 5 ∧ canonNumber (.fix 5) = .fix 5 := by decide
+
+end Canonical
+
+
 /-! ## non-vacuity -/
 
 example : Impl.inRange 9223372036854775807 ∧ Impl.inRange 1 ∧ ¬ Impl.inRange (9223372036854775807 + 1) := by
